@@ -179,6 +179,21 @@ class C02:
             g.add("one-piece", gen.resp_op(tree, ov, None, [s]))
             g.add("cut", gen.resp_op(tree, ov, None, gen.cut(s, gen.crlf_cuts(s))))
             groups.append(g)
+        # every status code (1xx among them) with another response right behind it: what the first message is does not
+        # depend on whether the second is already there when its header block completes (eleventh round: interim responses
+        # skipped when the final one was in the same call)
+        for j, it in enumerate(extremes.status_sweep(tier, rng)):
+            s, ml = it["stream"], it["msg_len"]
+            if it["framing"] != "none" and j % 3:
+                continue
+            g = Group("S%d" % j, "resp-delivery-status", {"stream": s.hex(), "hl": None, "framing": it["label"]})
+            g.add("one-piece", gen.resp_op(tree, ov, None, [s]))
+            g.add("cut", gen.resp_op(tree, ov, None, gen.cut(s, [ml])))
+            g.add("cut", gen.resp_op(tree, ov, None, gen.cut(s, [ml - 1])))
+            g.add("cut", gen.resp_op(tree, ov, None, gen.cut(s, [ml + 1 + (j % 8)])))
+            if j % 10 == 0:
+                g.add("cut", gen.resp_op(tree, ov, None, [s[i2:i2 + 1] for i2 in range(len(s))]))
+            groups.append(g)
         for j, it in enumerate(extremes.responses(rng, tier)):
             s, hl = it["stream"], it["hl"]
             g = Group("X%d" % j, "resp-delivery-extreme", {"stream": s.hex(), "hl": hl, "framing": it["label"]})
@@ -514,6 +529,9 @@ class C05:
         n = n_for(tier, 5000, 120000)
         for k in range(n):
             pre = rng.pick(CHUNK_PREFIXES)
+            if rng.chance(1, 4):
+                f1, f2 = rng.pick(gen.REALISTIC_FIELDS), rng.pick(gen.REALISTIC_FIELDS)
+                pre = b"HTTP/1.1 200 OK\r\n" + f1[0] + b": " + f1[1] + b"\r\nTransfer-Encoding: chunked\r\n" + (f2[0] + b": " + f2[1] + b"\r\n" if rng.chance(1, 2) else b"") + b"\r\n"
             payload = gen.rand_bytes(rng, rng.below(40), b"abc\r\n0 ;5f\x00\xff") if rng.chance(9, 10) else gen.rand_bytes(rng, rng.randint(100, 700))
             valid = rng.chance(3, 5)
             body, cinfo = gen.gen_chunked(rng, payload, good_p=1.0 if valid else 0.0)
@@ -870,6 +888,19 @@ class C09:
             g = Group("sc%d" % k, "resp-suffix", {"msg": m.hex(), "kind": "resp", "framing": it["framing"], "what": it["label"]})
             g.add("alone", gen.resp_op(tree, ov, None, [m]))
             g.add("suffix", gen.resp_op(tree, ov, None, [m + sfx]), {"sfx": sfx.hex()})
+            groups.append(g)
+        # the dictionary of the source and the corpus of real-world fields: whatever is taken as one message stays that
+        # message when more follows (a field like `Connection: close` does not make a body out of what follows)
+        dreq, dresp = extremes.dictionary(rng, tier)
+        for k, (label, s0) in enumerate(dresp):
+            g = Group("pd%d" % k, "resp-stream-suffix", {"stream": s0.hex(), "kind": "resp", "what": label})
+            g.add("alone", gen.resp_op(tree, ov, None, [s0]))
+            g.add("suffix", gen.resp_op(tree, ov, None, [s0 + b"HTTP/1.1 200 OK\r\n\r\n"]), {"sfx": b"HTTP/1.1 200 OK\r\n\r\n".hex()})
+            groups.append(g)
+        for k, (label, s0) in enumerate(dreq):
+            g = Group("qd%d" % k, "req-stream-suffix", {"stream": s0.hex(), "kind": "req", "what": label})
+            g.add("alone", gen.req_op(tree, ov, cfg, [s0]))
+            g.add("suffix", gen.req_op(tree, ov, cfg, [s0 + b"GET / HTTP/1.1\r\n\r\n"]), {"sfx": b"GET / HTTP/1.1\r\n\r\n".hex()})
             groups.append(g)
         # limits exactly at the message: bytes after the message must not be charged to it
         for k in range(n // 3):
@@ -1369,6 +1400,21 @@ class C07:
                     g.add("bytewise", gen.resp_op(tree, ov, None, [s[i:i + 1] for i in range(len(s))]))
                     groups.append(g)
                     k += 1
+        # a body that straddles calls: once N bytes of it are in, the next call (one byte, or none) must not commit to the
+        # announced remainder either -- N around every integer literal of the source (eleventh round: a 64 KiB threshold)
+        strad = sorted(set([256, 1024, 4096, 65536] + [v for v in srcdict.load()["ints"] if 200 <= v <= (1 << 17 if tier == "quick" else 1 << 20)]))
+        for N in strad:
+            for dN in (-1, 0, 1):
+                for D in (1 << 26, 1 << 40):
+                    body = b"b" * (N + dN)
+                    for kind, head, cfg in (("resp", b"HTTP/1.1 200 OK\r\nContent-Length: %d\r\n\r\n" % D, None),
+                                            ("req", b"POST / HTTP/1.1\r\nContent-Length: %d\r\n\r\n" % D, (1000, 1000, None))):
+                        g = Group("m%d" % k, "%s-declared" % kind, {"declared": D, "max": None, "supplied": len(body), "what": "body of %d bytes in, then one byte, then nothing" % len(body)})
+                        mk = (lambda ds: gen.resp_op(tree, ov, None, ds)) if kind == "resp" else (lambda ds: gen.req_op(tree, ov, cfg, ds))
+                        g.add("straddle", mk([head, body, b"x", b""]))
+                        g.add("straddle", mk([head + body[:len(body) // 2], body[len(body) // 2:], b"", b"xy"]))
+                        groups.append(g)
+                        k += 1
         # a declared length that is refused must not be remembered either: `parse` called again after the error
         # (implementation only; the documented protocol stops at the error)
         for d in declared:
@@ -1451,10 +1497,15 @@ class C07:
             if r.verdict == "crashed":
                 fails.append(Failure(group, "alloc", "declared length %s: %s" % (group.meta.get("declared"), r.category), [i]))
                 continue
+            so_far = 0
             for call in (r.ann.get("a") or [""])[0].split(";"):
                 if not call:
                     continue
                 maxreq, peak, presented = (int(x) for x in call.split(":"))
+                # what the message may hold on to grows with what has been received so far (a body that straddles calls
+                # is one Vec that doubles), never with what is merely announced
+                so_far += presented
+                presented = so_far
                 if maxreq > alloc_bound(presented, mx, 4096, 8):
                     fails.append(Failure(group, "alloc", "a single allocation request of %d bytes with %d bytes presented (declared %s)" % (maxreq, presented, group.meta.get("declared")), [i]))
                     break
